@@ -8,6 +8,8 @@
     Blocks: 0 = the queue object (head at +0, tail at +64), 1 = the initial node; every push first
     allocates the pushed object itself (a token block of 8 bytes, harness element kind [ptr]): the
     queue's values are the POINTERS to these blocks, [tokv b] is the number printed for the object.
+    pop() is the REPAIRED one: on the node hand-over path it executes the tail CAS (16) (_tail: h -> next, result
+    ignored) before the head CAS (13), so that _tail never stays on a node that is unlinked and retired.
     Node layout: pop_idx +16, entries[i] +24+8i, push_idx +24+8E, next +32+8E, size 40+8E. *)
 From Coq Require Import NArith List Bool.
 From XV Require Import Base.Word Conc.Lts Conc.Ev gen.RamalheteNodeGen.
@@ -50,6 +52,7 @@ Inductive pc :=
 | D4 (h : N)                   (* LD h->next rlx; null -> empty *)
 | D5 (h : N)                   (* (11) idx = h->pop_idx.fetch_add(step_size, rel) *)
 | D6 (h : N)                   (* node drained: (12) LD h->next acq; null -> empty *)
+| D6t (h nx : N)               (* (16) CAS _tail h -> nx rel/rlx (result ignored): _tail must not stay on the node that is unlinked *)
 | D7 (h nx : N)                (* (13) CAS _head h -> nx rel/rlx; success: reclaim h; continue *)
 | D9 (h idx c : N)             (* LD h->entries[idx % E] rlx; c = re-reads done so far *)
 | D10 (h idx b : N)            (* (14) LD h->entries[idx % E] acq; return b *)
@@ -124,7 +127,9 @@ Section Ram.
   Definition node_size : N := 40 + 8 * E.
 
   (** results: [1] ok / [1;x] value x / [0] empty / [2] impossible (a popper read "taken") *)
-  Definition step (st : state) (a : action) : option (state * list ev) :=
+  (** [old = true]: the code BEFORE the repair (no tail CAS (16) in pop), kept only for the refutation
+      witness; [step] is the repaired code *)
+  Definition step_gen (old : bool) (st : state) (a : action) : option (state * list ev) :=
     match a with
     | Start t o =>
       match th st t with
@@ -220,7 +225,11 @@ Section Ram.
       | D6 h =>
         let nx := nnext st h in
         let e := [ELoad t (L_next h) mo_acq (vptr nx)] in
-        if nx =? 0 then Some (at_pc st Idle, e ++ [ERet t [0]]) else go (D7 h nx) e
+        if nx =? 0 then Some (at_pc st Idle, e ++ [ERet t [0]]) else go (if old then D7 h nx else D6t h nx) e
+      | D6t h nx =>
+        if tail st =? h then
+          Some (at_pc (w_tail st nx) (D7 h nx), [ERmw t L_tail mo_rel (vptr h) (vptr nx)])
+        else go (D7 h nx) [ECasF t L_tail mo_rel mo_rlx (vptr (tail st)) (vptr h)]
       | D7 h nx =>
         if head st =? h then
           Some (at_pc (w_retired (w_head st nx) (g_retired st ++ [h])) D1,
@@ -252,4 +261,6 @@ Section Ram.
         end
       end
     end.
+
+  Definition step : state -> action -> option (state * list ev) := step_gen false.
 End Ram.
